@@ -37,6 +37,7 @@ ASSUMPTIONS = ['the in-memory model of the generated tree; normalisation by posi
 
 SECRET = b'TOP-SECRET-SENTINEL-7f3a'
 MTIME = 1500000000
+FUTURE = 4102444800       # 2100-01-01
 
 
 def deadline_passed():
@@ -72,6 +73,7 @@ class Tree(object):
         w('root2/sub/e.txt', b'echo')
         w('root/frac7.txt', b'mtime with a fraction that rounds up', MTIME + 0.7)
         w('root/frac3.txt', b'mtime with a fraction that rounds down', MTIME + 0.3)
+        w('root/future.txt', b'a file dated in the future (clock skew, foreign archive)', FUTURE)
         w('root/clash/inside.txt', b'a directory called clash in the first root')
         w('root2/clash', b'a regular file called clash in the second root')
         w('fb/a.txt', b'FALLBACK a')
@@ -368,7 +370,7 @@ def run_paths(acc, tree, cfg, depth, i, n, counter):
             acc.sample({'config': list(cfg), 'segments': segs, 'status': res.code})
 
 
-COND_FILES = [['a.txt'], ['sub', 'c.txt'], ['noext'], ['b.bin'], ['only2.txt'], ['frac7.txt'], ['frac3.txt']]
+COND_FILES = [['a.txt'], ['sub', 'c.txt'], ['noext'], ['b.bin'], ['only2.txt'], ['frac7.txt'], ['frac3.txt'], ['future.txt']]
 
 
 def http_date(ts):
@@ -381,7 +383,8 @@ def run_conditional(acc, tree, cfg):
     for segs in COND_FILES:
         base = wsgi.call(w.app, w.path_for(segs), 'GET')
         lm = base.header('Last-Modified')
-        for label, ims, want in (('before', http_date(MTIME - 100), 200), ('exact', lm, 304), ('after', http_date(MTIME + 100), 304)):
+        fm = FUTURE if segs[-1] == 'future.txt' else MTIME
+        for label, ims, want in (('before', http_date(fm - 100), 200), ('exact', lm, 304), ('after', http_date(fm + 100), 304)):
             if lm is None:
                 continue
             if base.code != 200:
